@@ -72,6 +72,16 @@ CHECKS = {
                      'all segmentations must give the same callbacks/payloads, bytes written, close decision and buffer, and that '
                      'outcome must equal the reference deframer\'s; every dataReceived call runs under a step budget linear in the chunk.',
                 ref='7 C04', note=E1_NOTE),
+    'C20': dict(level='fault_enumeration', engine='E4',
+                technique='exhaustive crash-point enumeration: every event history x rotation threshold x restart after the history with the last record torn at every byte offset x every continuation, on an in-memory file system bound to a real directory',
+                text='The real DefaultHandler runs over an in-memory file system (os/open seams of its module) that is compared '
+                     'byte-for-byte with a real temporary directory on every short history; for every history up to the bound, every '
+                     'rotation threshold, a restart clean or with the last record cut at every byte offset (a following rotation undone), '
+                     'every continuation and an optional second restart, all files are audited: every line a complete JSON record with '
+                     'keys t/seq/type/msg (at most the torn fragment excepted), sequence numbers 1..N without gap or reuse, init() never exits.',
+                ref='7 C20', note='Trusted base: the in-memory file system shim (vf/fakefs.py, cross-checked against a real directory), the crash model '
+                     '(any prefix of the last event\'s bytes may be durable; earlier records are durable because every record is flushed and fsynced), '
+                     'the stdlib-json stand-in for simplejson with JSON-native payloads only.'),
 }
 
 NOT_YET = 'check not built yet in this session (see DESIGN.md section 7 for the plan); not claimed'
